@@ -19,8 +19,8 @@ What relates `Deriv` to the textbook definition is that the FIRST map is *exact*
 FIRST equations (`Proofs/First`, which gives completeness w.r.t. derivation trees: `Valid.first_complete_aux`)
 and sound (`Proofs/FirstSound`: a terminal in `FIRST(B)` begins a sentential form derived from `B`, a nullable
 mark means `B ⇒* ε`).  The equivalence of this propagation-rule characterisation with the
-canonical-LR(1)-merged-by-core definition is compared with an independent construction on every generated
-grammar (DESIGN.md §6.3).
+canonical-LR(1)-merged-by-core definition is `Proofs/Canonical.lalr_exact` (`C17_is_lalr1`); it is additionally
+compared with an independent construction on every generated grammar (DESIGN.md §6.3).
 -/
 import KikiVerif.Model.Table
 import KikiVerif.Proofs.Generator
